@@ -1,4 +1,4 @@
-import AdfObdd.Deps
+import AdfObdd.MeasMemo
 /-! executable models of the counting queries of `obdd.rs` (no Mathlib in the import closure) -/
 
 /-- `modelcount_naive`: (counter-models, models, depth) -/
@@ -26,6 +26,75 @@ def pathsF (s : Store) : Nat → Nat → Nat × Nat
       let l := pathsF s fuel n.lo; let h := pathsF s fuel n.hi
       (l.1 + h.1, l.2 + h.2)
 
+/-! ### memoised twins (one cache entry per node, as `count_cache` of the code)
+
+`countF`/`pathsF` recompute shared sub-diagrams; the compiled driver runs `countFM`/`pathsFM`
+(`Memo.Meas.go`: a per-call `Std.HashMap` keyed by the node), proved equal on every table and
+substituted by the compiler (`@[csimp]`); all theorems keep speaking about `countF`/`pathsF`. -/
+namespace Memo
+
+def cntG : Meas (Nat × Nat × Nat) where
+  z := (0, 0, 0)
+  l0 := (1, 0, 0)
+  l1 := (0, 1, 0)
+  nn := (0, 0, 0)
+  node := fun _ l h =>
+    let D := max l.2.2 h.2.2
+    (l.1 * 2 ^ (D - l.2.2) + h.1 * 2 ^ (D - h.2.2), l.2.1 * 2 ^ (D - l.2.2) + h.2.1 * 2 ^ (D - h.2.2), D + 1)
+
+def pathG : Meas (Nat × Nat) where
+  z := (0, 0)
+  l0 := (1, 0)
+  l1 := (0, 1)
+  nn := (0, 0)
+  node := fun _ l h => (l.1 + h.1, l.2 + h.2)
+
+theorem countF_eq_F (s : Store) : ∀ (fuel t : Nat), countF s fuel t = cntG.F s fuel t := by
+  intro fuel
+  induction fuel with
+  | zero => intro t; rfl
+  | succ f ih =>
+    intro t
+    unfold countF Meas.F
+    by_cases h1 : t = 1
+    · simp only [if_pos h1]; rfl
+    rw [if_neg h1, if_neg h1]
+    by_cases h0 : t = 0
+    · simp only [if_pos h0]; rfl
+    rw [if_neg h0, if_neg h0]
+    cases s.nodes[t]? with
+    | none => rfl
+    | some n => simp only [ih]; rfl
+
+theorem pathsF_eq_F (s : Store) : ∀ (fuel t : Nat), pathsF s fuel t = pathG.F s fuel t := by
+  intro fuel
+  induction fuel with
+  | zero => intro t; rfl
+  | succ f ih =>
+    intro t
+    unfold pathsF Meas.F
+    by_cases h1 : t = 1
+    · simp only [if_pos h1]; rfl
+    rw [if_neg h1, if_neg h1]
+    by_cases h0 : t = 0
+    · simp only [if_pos h0]; rfl
+    rw [if_neg h0, if_neg h0]
+    cases s.nodes[t]? with
+    | none => rfl
+    | some n => simp only [ih]; rfl
+
+end Memo
+
+/-- `countF` with one cache entry per node (what the compiled driver runs) -/
+def countFM (s : Store) (fuel t : Nat) : Nat × Nat × Nat := Memo.cntG.FM s fuel t
+/-- `pathsF` with one cache entry per node (what the compiled driver runs) -/
+def pathsFM (s : Store) (fuel t : Nat) : Nat × Nat := Memo.pathG.FM s fuel t
+
+@[csimp] theorem countF_eq_countFM : @countF = @countFM := by
+  funext s fuel t; rw [countFM, Memo.FM_eq, Memo.countF_eq_F]
+@[csimp] theorem pathsF_eq_pathsFM : @pathsF = @pathsFM := by
+  funext s fuel t; rw [pathsFM, Memo.FM_eq, Memo.pathsF_eq_F]
+
 def paths (s : Store) (t : Nat) : Nat × Nat := pathsF s (t+1) t
 def minPaths (s : Store) (t : Nat) : Nat := min (paths s t).1 (paths s t).2
 def moreModels (p : Nat × Nat) : Bool := p.2 ≥ p.1          -- repaired (D4)
@@ -35,3 +104,120 @@ def passive (s : Store) (v : Nat) (interp : List Nat) : Nat := (interp.filter (f
 def active (s : Store) (v : Nat) (interp : List Nat) : Nat :=
   ((List.range interp.length).filter (fun i => (depsOf s (interp.getD v 0)).contains i)).length
 
+/-! ### dependency sets as increasing lists
+
+`depsF` lists a variable once per PATH through it (an exponentially long list on a parity diagram);
+its callers in the searches only ask `contains`. `setG` is the same recursion with the list replaced
+by the set of its members, kept as a strictly increasing duplicate-free list (the cost of a union
+depends on the number of members, not on their magnitude: variable indices may be 2^32);
+`passive`/`active` are compiled to twins that evaluate it with one cache entry per node (`var_deps` of
+the code). -/
+namespace Memo
+
+def setG : Meas (List Nat) where
+  z := []
+  l0 := []
+  l1 := []
+  nn := []
+  node := fun n l h => umerge [n.var] (umerge l h)
+
+theorem mem_depsF (s : Store) : ∀ (fuel t v : Nat), v ∈ depsF s fuel t ↔ v ∈ setG.F s fuel t := by
+  intro fuel
+  induction fuel with
+  | zero => intro t v; simp [depsF, Meas.F, setG]
+  | succ f ih =>
+    intro t v
+    unfold depsF Meas.F
+    by_cases h1 : t = 1
+    · subst h1; simp [setG]
+    by_cases h0 : t = 0
+    · subst h0; simp [setG]
+    rw [if_neg (by omega : ¬ t < 2), if_neg h1, if_neg h0]
+    cases hn : s.nodes[t]? with
+    | none => simp [setG]
+    | some n =>
+      show v ∈ n.var :: (depsF s f n.lo ++ depsF s f n.hi) ↔
+        v ∈ umerge [n.var] (umerge (setG.F s f n.lo) (setG.F s f n.hi))
+      rw [mem_umerge, mem_umerge, List.mem_cons, List.mem_append, ih n.lo v, ih n.hi v, List.mem_singleton]
+
+theorem depsF_contains (s : Store) (fuel t v : Nat) :
+    (depsF s fuel t).contains v = (setG.F s fuel t).contains v := by
+  rw [Bool.eq_iff_iff, List.contains_iff_mem, List.contains_iff_mem]
+  exact mem_depsF s fuel t v
+
+/-- the sets are strictly increasing lists -/
+theorem setF_sorted (s : Store) : ∀ (fuel t : Nat), (setG.F s fuel t).Pairwise (· < ·) := by
+  intro fuel
+  induction fuel with
+  | zero => intro t; exact List.Pairwise.nil
+  | succ f ih =>
+    intro t
+    unfold Meas.F
+    by_cases h1 : t = 1
+    · rw [if_pos h1]; exact List.Pairwise.nil
+    by_cases h0 : t = 0
+    · rw [if_neg h1, if_pos h0]; exact List.Pairwise.nil
+    rw [if_neg h1, if_neg h0]
+    cases s.nodes[t]? with
+    | none => exact List.Pairwise.nil
+    | some n => exact umerge_sorted _ _ (List.pairwise_singleton _ _) (umerge_sorted _ _ (ih n.lo) (ih n.hi))
+
+/-- the dependency set of a handle -/
+def setOf (s : Store) (t : Nat) : List Nat := setG.F s (t+1) t
+
+theorem depsOf_contains (s : Store) (t v : Nat) : (depsOf s t).contains v = (setOf s t).contains v :=
+  depsF_contains s (t+1) t v
+
+theorem setOf_zero (s : Store) : setOf s 0 = [] := by simp [setOf, Meas.F, setG]
+
+/-- `passive` from the dependency sets of all handles of the interpretation -/
+def passiveB (bl : List (List Nat)) (v : Nat) : Nat := (bl.filter (fun b => b.contains v)).length
+/-- `active` from the dependency sets of all handles of the interpretation -/
+def activeB (bl : List (List Nat)) (v : Nat) : Nat :=
+  ((List.range bl.length).filter (fun i => (bl.getD v []).contains i)).length
+
+theorem passive_eq_B (s : Store) (v : Nat) (interp : List Nat) :
+    passive s v interp = passiveB (setG.mapL s interp) v := by
+  unfold passive passiveB Meas.mapL
+  rw [List.filter_map, List.length_map]
+  congr 1
+  apply List.filter_congr
+  intro t _
+  exact depsOf_contains s t v
+
+theorem getD_map_nil (s : Store) (interp : List Nat) (v : Nat) :
+    (setG.mapL s interp).getD v [] = setOf s (interp.getD v 0) := by
+  unfold Meas.mapL
+  rw [List.getD_eq_getElem?_getD, List.getD_eq_getElem?_getD, List.getElem?_map]
+  cases interp[v]? with
+  | none => simp [setOf_zero]
+  | some t => rfl
+
+theorem active_eq_B (s : Store) (v : Nat) (interp : List Nat) :
+    active s v interp = activeB (setG.mapL s interp) v := by
+  unfold active activeB
+  rw [getD_map_nil]
+  simp only [Meas.mapL, List.length_map]
+  congr 1
+  apply List.filter_congr
+  intro i _
+  exact depsOf_contains s _ i
+
+end Memo
+
+def passiveM (s : Store) (v : Nat) (interp : List Nat) : Nat := Memo.passiveB (Memo.setG.mapL s interp) v
+def activeM (s : Store) (v : Nat) (interp : List Nat) : Nat :=
+  let b := Memo.setG.FM s (interp.getD v 0 + 1) (interp.getD v 0)
+  ((List.range interp.length).filter (fun i => b.contains i)).length
+
+@[csimp] theorem passive_eq_passiveM : @passive = @passiveM := by
+  funext s v interp; exact Memo.passive_eq_B s v interp
+@[csimp] theorem active_eq_activeM : @active = @activeM := by
+  funext s v interp
+  unfold active activeM
+  rw [Memo.FM_eq]
+  simp only
+  congr 1
+  apply List.filter_congr
+  intro i _
+  exact Memo.depsOf_contains s _ i
